@@ -39,7 +39,11 @@ func (c *specialCtx) violation(kind string, detail string, payload any) {
 	defer c.mu.Unlock()
 	for k := range c.known {
 		kf := &c.known[k]
-		if kf.Status == "open" && kf.Property == c.prop && (kf.Kind == "" || kf.Kind == kind) {
+		clauseOK := false
+		if kf.Clause != "" {
+			clauseOK, _ = regexpMatchString(kf.Clause, kind)
+		}
+		if kf.Status == "open" && kf.Property == c.prop && (kf.Kind == kind || clauseOK) {
 			if ok, _ := regexpMatch(kf.Detail, detail); ok {
 				c.knownHit[kf.ID]++
 				return
@@ -564,6 +568,7 @@ func specialSegmentation(c *specialCtx) {
 				c.mu.Lock()
 				c.st.Cut++
 				c.mu.Unlock()
+				c.violation("keep-wide-run", "a run of several characters written onto the second cell of a wide character (span buffer)", nil)
 				return
 			}
 		}
